@@ -139,6 +139,16 @@ func calculate(doc billable) error {
 		tls = append(tls, l)
 	}
 
+	// Lines without a price take no part in the totals, but the rates of
+	// their tax combos are still resolved for the document's tax date.
+	for _, l := range doc.getLines() {
+		if l.Total == nil {
+			if err := l.Taxes.Prepare(r.GetCountry(), doc.GetTags(), *date); err != nil {
+				return err
+			}
+		}
+	}
+
 	if len(tls) == 0 {
 		// This applies for orders and deliveries that might not have
 		// any pricing details.
